@@ -92,7 +92,9 @@ def passthrough(tc: int, tr: int, tw: int, tp: int, hc: bool, hr: bool, hw: bool
             negotiating = e.get("peer_state") is not None and e["sock"] not in tunnelled
             if negotiating:
                 P.cover("negotiation-op")
-                if all_set:
+                if hc:
+                    # (the negotiation is part of establishing the connection: with a connect time-out configured it is
+                    # never unlimited, whatever else is or is not configured)
                     P.check(e["timeout"] is not None, "negotiation-step-has-a-limit",
                             f"socks-negotiation-{op}-without-timeout")
                     if e["timeout"] is not None:
